@@ -48,9 +48,11 @@ class ModelOracle(Oracle):
             discr = {"field": _field(first), "kind": rec.get("kind"), "cls": mrec.get("cls") or rec.get("cls"), "view": label}
             if "but not in" in first:
                 discr["field"] = "missing_in_" + first.rsplit(" ", 1)[1]
-            if getattr(model, "removed_entry", {}).get(uid) == "parent" and uid in model.recs:
+            root = getattr(model, "removed_root", {}).get(uid, uid)
+            if getattr(model, "removed_entry", {}).get(uid) == "parent" and (uid in model.recs or root in model.recs):
                 # the identifier of an entity removed through its parent has been given to a new entity (a cross-workspace
-                # copy keeps identifiers): the new entity meets the node that removal left in the file
+                # copy keeps identifiers, a creation may name one): the new entity meets the node that removal left in the file -- and,
+                # linked under it, the nodes of the removed entity's descendants
                 discr["reuses_uid_removed_by"] = "parent"
             raise Violation(self.prop, "state_differs", f"{label}: {first} (+{len(diffs) - 1} more)", discr)
 
